@@ -363,12 +363,40 @@ def entry_bounds(prog, fn):
     return acc or {}
 
 
+def window_elem_len(prog, fn):
+    """fn is a closure handed to an iterator adaptor over `slice.windows(N)` / `chunks_exact(N)` / `array_windows::<N>()`: every element it is
+    called with has exactly N items.  -> N or 0"""
+    if prog is None or fn.kind != "closure" or not fn.parent or fn.parent not in prog.fns:
+        return 0
+    par = prog.fns[fn.parent]
+    from .lib2 import iter_chain
+    from .lib import src_of_operand as _src
+    for b, t in par.calls():
+        if len(t["args"]) < 2:
+            continue
+        if not any((lambda s_: s_.kind == "agg" and s_.rv.get("ak") == "closure" and s_.rv.get("n") == fn.id)(_src(par, a)) for a in t["args"][1:]):
+            continue
+        for name, ct in iter_chain(par, t["args"][0]):
+            if name in ("windows", "chunks_exact", "rchunks_exact") and len(ct["args"]) >= 2:
+                k = const_val(par, ct["args"][1])
+                if k:
+                    return k
+    return 0
+
+
 def check_fn(fn, prog=None):
     """[(kind, block, line, need, have, ok)] for every constant-offset access of fn"""
     res = []
     pre = None
+    win = None
     for kind, b, ln, root, need in constant_accesses(fn):
         have = known_len(fn, b, root)
+        if have < need and fn.kind == "closure":
+            if win is None:
+                win = window_elem_len(prog, fn)
+            # the accessed slice is the closure's own element parameter (not a captured buffer)
+            if win and isinstance(root, int) and 2 <= root <= fn.d["argc"]:
+                have = max(have, win)
         if have < need:
             if pre is None:
                 pre = entry_bounds(prog, fn)
